@@ -5,13 +5,17 @@ from .extract import Rules, ExtractionBreak, match_close, split_top
 EXC = {"invalid_argument": 1, "runtime_error": 2, "logic_error": 3, "out_of_range": 4}
 
 
+SCALAR_RET = {"Index", "int", "long", "Scalar", "RealScalar", "_Bool", "bool", "double", "float", "SortRule", "CompInfo",
+              "unsigned long", "unsigned", "long double", "size_t"}
+
+
 def ret_default(ret_c):
     r = ret_c.strip()
     if r == "void":
         return "return;"
-    if r in ("Complex", "cplx"):
-        return "return verif_cplx_zero();"
-    return "return (%s)0;" % r
+    if r in SCALAR_RET or r.endswith("*"):
+        return "return (%s)0;" % r
+    return "{ static %s verif_zero; return verif_zero; }" % r
 
 
 def c_params(params, ref_out, self_type=None, param_types=None):
@@ -20,7 +24,7 @@ def c_params(params, ref_out, self_type=None, param_types=None):
     out = []
     if self_type:
         out.append("%s *self" % self_type)
-    for p in split_top(params):
+    for p in split_top(params, angle=True):
         p = " ".join(p.split())
         if not p:
             continue
@@ -60,9 +64,13 @@ CAST_TYPES = r"Scalar|RealScalar|Index|QScalar"
 
 
 def body_to_c(fn, R, members=(), ref_params=(), ret_c="void", extra_rules=(), maythrow=(),
-              cast_types=CAST_TYPES, member_prefix="self->"):
-    """Apply the generic idiom rules, then the sidecar's extra rules, to fn.body."""
+              cast_types=CAST_TYPES, member_prefix="self->", pre_rules=()):
+    """Apply the sidecar's pre-rules, the generic idiom rules, then the sidecar's extra rules, to fn.body."""
     b = fn.body
+    for rule in pre_rules:
+        kw = rule[3] if len(rule) > 3 else {}
+        b = R.sub("pre:" + rule[0], rule[1], rule[2], b, flags=kw.get("flags", re.S),
+                  min_fires=kw.get("min", 1), max_fires=kw.get("max"))
     b = R.sub("drop-using", r"\busing\s+[\w:]+(\s*=[^;]*)?;", "", b)
     b = R.sub("constexpr", r"\bconstexpr\b", "const", b)
     b = R.sub("drop-std-string-msg", r"\bstd::string\s+\w+\s*=[^;]*;", "", b, flags=re.S)
@@ -185,7 +193,7 @@ def ctor_inits_to_c(inits, R, skip=()):
 
 def emit(fn, cname, ret_c=None, self_type=None, members=(), param_types=None, contract="",
          loop_contracts=None, extra_rules=(), maythrow=(), init_skip=None, rules=None,
-         static=False, pre_body="", cast_types=CAST_TYPES):
+         static=False, pre_body="", cast_types=CAST_TYPES, pre_rules=()):
     """Return (C text, Rules) for one function.  `contract` is placed between the declarator
     and the body; loop contracts between loop head and loop body."""
     R = rules or Rules()
@@ -202,7 +210,7 @@ def emit(fn, cname, ret_c=None, self_type=None, members=(), param_types=None, co
         init_c = ctor_inits_to_c(fn.inits, R, skip=init_skip)
         fn = _copy_with_body(fn, " " + init_c + fn.body)
     body = body_to_c(fn, R, members=members, ref_params=refs, ret_c=ret_c,
-                     extra_rules=extra_rules, maythrow=maythrow, cast_types=cast_types)
+                     extra_rules=extra_rules, maythrow=maythrow, cast_types=cast_types, pre_rules=pre_rules)
     body, nl = inject_loop_contracts(body, loop_contracts or {}, fn.name)
     R.fired["loop-contracts"] = nl
     contract = " ".join(contract.split())
